@@ -29,14 +29,14 @@ for prop in sorted(os.listdir(SRC)):
             if os.path.exists(os.path.join(d, f)) and not os.path.exists(os.path.join(out, f)):
                 shutil.copy(os.path.join(d, f), os.path.join(out, f))
         notes = open(os.path.join(d, "notes.md")).read() if os.path.exists(os.path.join(d, "notes.md")) else ""
-        area = re.match(r"PROPERTY:\s*(C\d\d)", notes) if re.fullmatch(r"[XA]\d", prop) else None
+        area = re.match(r"PROPERTY:\s*(C\d\d)", notes) if re.fullmatch(r"[XAR]\d", prop) else None
         files = re.findall(r"^\+\+\+ b/(\S+)", open(os.path.join(d, "patch.diff")).read(), re.M)
         meta_path = os.path.join(out, "meta.json")
         meta = json.load(open(meta_path)) if os.path.exists(meta_path) else {}
         meta.update(dict(
             id=sid, property=area.group(1) if area else OWN_PROPS.get(sid, prop), files_changed=files,
             origin=("change from the design's own list of planned breaks (DESIGN §6), implemented and test-suite-checked by a sub-agent that saw only the change description"
-                    if prop == "OWN" else "white-box adversary: sub-agent that could read the monitors and run them against its scratch worktree, asked for a realistic breaking change that the property's own check misses at seeds 0 and 1" if re.fullmatch(r"A\d", prop)
+                    if prop == "OWN" else "white-box adversary: sub-agent that could read the monitors and run them against its scratch worktree, asked for a realistic breaking change that the property's own check misses at seeds 0 and 1" if re.fullmatch(r"[AR]\d", prop)
                     else "independent sub-agent given the 18 property texts, a scratch worktree and one source area to change (any property)" if prop.startswith("X")
                     else "independent sub-agent given only the property text and a scratch worktree"),
             needs_to_manifest=notes.strip()[:1500],
